@@ -20,7 +20,12 @@ REL = {
 }
 SEG = ["C03", "C14", "C15", "C16", "C10", "C12", "C18"]
 
+ONLY = None
+
+
 def relevant(patch):
+    if ONLY:
+        return list(ONLY)
     files = sorted(set(re.findall(r"^\+\+\+ b/(\S+)", open(patch).read(), re.M)))
     out = []
     for f in files:
@@ -79,11 +84,13 @@ def worker(k, q, tier, lock):
 def main():
     a = sys.argv[1:]
     n, tier, ids, base = 3, "quick", [], 0
+    global ONLY
     i = 0
     while i < len(a):
         if a[i] == "--sandboxes": n = int(a[i + 1]); i += 2
         elif a[i] == "--tier": tier = a[i + 1]; i += 2
         elif a[i] == "--base": base = int(a[i + 1]); i += 2
+        elif a[i] == "--props": ONLY = a[i + 1].split(","); i += 2
         else: ids.append(a[i]); i += 1
     if not ids:
         ids = sorted(os.path.basename(d) for d in glob.glob(os.path.join(V, "seeded", "*")))
